@@ -5,9 +5,11 @@ import SSJ.Model.Frame
 
 namespace SSJ
 
-/-- `build_dict_from_table(table, key_idx, …, remove_null=False)`: key ↦ row; later rows win -/
+/-- `build_dict_from_table(table, key_idx, …, remove_null=False)`: key ↦ row; later rows win.  A Python dict:
+    keys are identified by Python equality (`Dict.setPy`: a row whose key is `1.0` overwrites the entry of key `1`);
+    for a validated key column (`PyDistinct`) every row gets its own entry -/
 def buildDict (rows : List Row) (keyIdx : Nat) : List (Cell × Row) :=
-  rows.foldl (fun d row => Dict.set d (row.cell keyIdx) row) []
+  rows.foldl (fun d row => Dict.setPy d (row.cell keyIdx) row) []
 
 /-- the argument handed to `sim_function`: tokens when a tokenizer is given, else the raw value -/
 inductive SimArg where
@@ -38,9 +40,13 @@ structure MatcherArgs where
 /-- `generate_tokens(table, key, attr, tokenizer)`: key ↦ tokens for rows with a present value -/
 def generateTokens (rows : List Row) (keyIdx attrIdx : Nat) (tok : String → List Tok) : List (Cell × List Tok) :=
   (rows.filter (fun r => !(r.cell attrIdx).isMissing)).foldl
-    (fun d r => Dict.set d (r.cell keyIdx) (tok (r.cell attrIdx).strVal)) []
+    (fun d r => Dict.setPy d (r.cell keyIdx) (tok (r.cell attrIdx).strVal)) []
 
-/-- `_apply_matcher_split` on one chunk of candset rows -/
+/-- `_apply_matcher_split` on one chunk of candset rows.  The candidate's key values `l_id`, `r_id` are looked up
+    in the table dictionaries (and in the token cache) as Python does — by Python equality (`Dict.getPy?`): a
+    candidate key `1.0` finds the table row of key `1`.  Without output attributes the output row carries the
+    CANDSET's key values (`[candset_row[0], l_id, r_id]`), with output attributes the TABLES' key values
+    (`get_output_row_from_tables(l_row, r_row, …)`). -/
 def applyMatcherSplit (a : MatcherArgs) (candLIdx candRIdx : Nat)
     (lRows rRows : List Row) (lKeyIdx lAttrIdx rKeyIdx rAttrIdx : Nat) (o : OutCfg)
     (tok : Option (String → List Tok)) (sim : SimArg → SimArg → PyV)
@@ -51,8 +57,8 @@ def applyMatcherSplit (a : MatcherArgs) (candLIdx candRIdx : Nat)
   let rows ← chunk.mapM (fun (cr : Row) => do
     let lId := cr.cell candLIdx
     let rId := cr.cell candRIdx
-    let lRow ← match Dict.get? lDict lId with | some r => pure r | none => throw PyErr.other  -- KeyError
-    let rRow ← match Dict.get? rDict rId with | some r => pure r | none => throw PyErr.other
+    let lRow ← match Dict.getPy? lDict lId with | some r => pure r | none => throw PyErr.other  -- KeyError
+    let rRow ← match Dict.getPy? rDict rId with | some r => pure r | none => throw PyErr.other
     let lv := lRow.cell lAttrIdx
     let rv := rRow.cell rAttrIdx
     let mk (score : Cell) : Row :=
@@ -68,7 +74,7 @@ def applyMatcherSplit (a : MatcherArgs) (candLIdx candRIdx : Nat)
         match tok with
         | some tk =>
           match cache with
-          | some (lc, rc) => (.toks (Dict.getD lc lId []), .toks (Dict.getD rc rId []))
+          | some (lc, rc) => (.toks (Dict.getPyD lc lId []), .toks (Dict.getPyD rc rId []))
           | none => (.toks (tk lv.strVal), .toks (tk rv.strVal))
         | none => (.raw lv, .raw rv)
       let s := sim la ra
@@ -151,7 +157,8 @@ structure CandsetArgs where
 /-- `Filter.filter_candset` for any filter given as its `filter_pair` — a Python call that may raise
     (`filterPairPy`, `overlapFilterPairPy`: TypeError when a value handed to the tokenizer is not a `str`);
     the first exception in candset order (KeyError for an unknown key, or the one of `filter_pair`)
-    fails the call -/
+    fails the call.  Candidate keys are looked up by Python equality (`Dict.getPy?`); the kept rows are the
+    candset's own rows (`candset[valid_rows]`), key cells unchanged -/
 def filterCandset (a : CandsetArgs) (fp : Cell → Cell → Except PyErr Bool) (cpu : Int) : Except PyErr Frame := do
   let c ← validateInputTable a.candset
   validateAttr a.candLKey c
@@ -178,8 +185,8 @@ def filterCandset (a : CandsetArgs) (fp : Cell → Cell → Except PyErr Bool) (
   let labelled := c.rows.zip (c.index ++ List.replicate (c.rows.length - c.index.length) Cell.missing)
   let chunks ← (chunksFor labelled a.nJobs cpu).mapM (fun ch =>
     ch.filterMapM (fun ((cr, lab) : Row × Cell) => do
-      let lRow ← match Dict.get? lDict (cr.cell li) with | some x => pure x | none => throw PyErr.other
-      let rRow ← match Dict.get? rDict (cr.cell ri) with | some x => pure x | none => throw PyErr.other
+      let lRow ← match Dict.getPy? lDict (cr.cell li) with | some x => pure x | none => throw PyErr.other
+      let rRow ← match Dict.getPy? rDict (cr.cell ri) with | some x => pure x | none => throw PyErr.other
       let drop ← fp (lRow.cell (lProj.idxOf a.lAttr)) (rRow.cell (rProj.idxOf a.rAttr))
       pure (if !drop then some (cr, lab) else none)))
   let kept := chunks.flatten
